@@ -9,7 +9,11 @@ pub const BUFSIZES: [u64; 8] = [100_000, 61, 17, 64, 255, 1000, 4096, 100_000];
 
 pub fn gen_base(prop: &str, rng: &mut Rng, small_only: bool, seed: u64) -> Case {
     let subs = subjects();
-    let subject = subs[rng.below(subs.len() as u64) as usize].name().to_string();
+    let mut subject = subs[rng.below(subs.len() as u64) as usize].name().to_string();
+    if subject == "CryptoPipe" && prop != "C08" {
+        // the raw pipe has no length framing: only C08's chunking / fault clauses apply to it
+        subject = "RecSmall".to_string();
+    }
     let container = match prop {
         "C14" => {
             if rng.chance(1, 2) {
@@ -34,6 +38,8 @@ pub fn gen_base(prop: &str, rng: &mut Rng, small_only: bool, seed: u64) -> Case 
         },
         _ => Container::ALL[rng.below(5) as usize],
     };
+    // the raw CryptoWriter/CryptoReader pipe only exists in encrypted-plain form
+    let container = if subject == "CryptoPipe" { Container::EncPlain } else { container };
     let bufsize = *rng.pick(&BUFSIZES);
     let mut sc = match rng.below(100) {
         0..=9 => 0,
